@@ -21,6 +21,7 @@ type vxConn struct {
 	closeErr error
 	reads    int
 	unblock  chan struct{}
+	eofs     int      // Read returns io.EOF this many times before anything else
 	script   [][]byte // datagrams handed to the reader, one per Read
 	after    func()   // called by the Read that finds the script exhausted (e.g. observe, then Close)
 }
@@ -42,6 +43,10 @@ func (c *vxConn) Write(p []byte) (int, error) {
 // goroutine sits here; responses are delivered by the harness as events).
 func (c *vxConn) Read(p []byte) (int, error) {
 	c.reads++
+	if c.eofs > 0 {
+		c.eofs--
+		return 0, io.EOF
+	}
 	if len(c.script) > 0 {
 		d := c.script[0]
 		c.script = c.script[1:]
@@ -51,6 +56,9 @@ func (c *vxConn) Read(p []byte) (int, error) {
 		f := c.after
 		c.after = nil
 		f()
+		if c.closed == 0 {
+			return 0, io.EOF // precondition of C15: under WithNoConnClose the connection's Read eventually returns
+		}
 	}
 	<-c.unblock
 	return 0, io.EOF
